@@ -61,6 +61,7 @@ type specNode struct {
 	g      int
 	behind bool
 	f      int
+	closed bool // IgnoreCase class whose ranges were case-closed at parse time
 }
 
 // ---- s-expression reader
@@ -206,7 +207,38 @@ func (r *specReader) node() *specNode {
 
 func verifParseSpec(s string) *specNode {
 	r := &specReader{s: s}
-	return r.node()
+	n := r.node()
+	specCloseCase(n)
+	return n
+}
+
+// specCloseCase closes the (small) ranges of IgnoreCase classes under simple case
+// equivalence once, so that membership needs no case mapping of the text rune.
+func specCloseCase(n *specNode) {
+	for _, k := range n.kids {
+		specCloseCase(k)
+	}
+	if n.k != skClass || n.f&sfI == 0 {
+		return
+	}
+	closed := true
+	var extra []specItem
+	for _, it := range n.items {
+		if it.cat != "" {
+			continue
+		}
+		if it.hi-it.lo > 4096 {
+			closed = false
+			continue
+		}
+		for r := it.lo; r <= it.hi; r++ {
+			for x := unicode.SimpleFold(r); x != r; x = unicode.SimpleFold(x) {
+				extra = append(extra, specItem{lo: x, hi: x})
+			}
+		}
+	}
+	n.items = append(n.items, extra...)
+	n.closed = closed
 }
 
 // ---- character semantics
@@ -247,14 +279,29 @@ func specCat(cat string, f int, c rune) bool {
 	panic("spec: unknown category " + cat)
 }
 
-func specRawIn(n *specNode, c rune) bool {
+func specRangesIn(n *specNode, c rune) bool {
+	for _, it := range n.items {
+		if it.cat == "" && c >= it.lo && c <= it.hi {
+			return true
+		}
+	}
+	return false
+}
+
+func specCatsIn(n *specNode, c rune) bool {
 	in := false
 	for _, it := range n.items {
-		if it.cat != "" {
-			if specCat(it.cat, n.f, c) != it.neg {
-				in = true
-			}
-		} else if c >= it.lo && c <= it.hi {
+		if it.cat == "" {
+			continue
+		}
+		var m bool
+		if n.f&sfI != 0 && (it.cat == "Lu" || it.cat == "Ll" || it.cat == "Lt") {
+			// documented: under IgnoreCase the three cased-letter categories all match
+			m = specCat("Lu", n.f, c) || specCat("Ll", n.f, c) || specCat("Lt", n.f, c)
+		} else {
+			m = specCat(it.cat, n.f, c)
+		}
+		if m != it.neg {
 			in = true
 		}
 	}
@@ -262,15 +309,13 @@ func specRawIn(n *specNode, c rune) bool {
 }
 
 // verifSumInClass: class membership (summarised by the engine: one decision per use).
+// Under IgnoreCase the ranges are closed under simple case equivalence (text runes
+// are restricted to plain upper/lower pairs, so the orbit is {c, SimpleFold(c)});
+// categories are not case-folded except Lu/Ll/Lt.
 func verifSumInClass(n *specNode, c rune) bool {
-	in := specRawIn(n, c)
-	if n.f&sfI != 0 && !in {
-		// closed under simple case equivalence
-		for x := unicode.SimpleFold(c); x != c; x = unicode.SimpleFold(x) {
-			if specRawIn(n, x) {
-				in = true
-			}
-		}
+	in := specRangesIn(n, c) || specCatsIn(n, c)
+	if n.f&sfI != 0 && !in && !n.closed {
+		in = specRangesIn(n, unicode.SimpleFold(c))
 	}
 	return in != n.neg
 }
@@ -367,7 +412,7 @@ func (m *specM) endZ(pos int, k func(int) bool) bool {
 func (m *specM) m(n *specNode, pos, dir int, k func(int) bool) bool {
 	m.steps++
 	if m.steps > 200000 {
-		panic("spec: step limit")
+		verifGiveUp("spec-step-limit")
 	}
 	switch n.k {
 	case skEmpty:
